@@ -310,6 +310,7 @@ def shards(tier):
     if tier == "quick":
         out.append(("scan3q",))
     out.append(("scanspec",))
+    out.append(("enums",))
     for part in range(4):
         out.append(("addr_sweep", part))
     return out
@@ -373,6 +374,28 @@ def run_shard(shard):
     k = shard[0]
     if k == "addr_sweep":
         run_addr_sweep(res, shard[1])
+        return res
+    if k == "enums":
+        # filter bits and event-scheme numbers against literal tables (IEC 62386-301 / -303 / -304 event filter tables,
+        # -103 Table "eventScheme"): the sequences store int(member), so a renamed or renumbered member would otherwise go unseen
+        from dali.device import pushbutton, occupancy, light, general
+        tables = {
+            "pushbutton.InstanceEventFilter": (pushbutton.InstanceEventFilter, {"button_released": 1, "button_pressed": 2, "short_press": 4, "double_press": 8,
+                                                                                "long_press_start": 16, "long_press_repeat": 32, "long_press_stop": 64, "button_stuck_free": 128}),
+            "occupancy.InstanceEventFilter": (occupancy.InstanceEventFilter, {"occupied": 1, "vacant": 2, "repeat": 4, "movement": 8, "no_movement": 16}),
+            "light.InstanceEventFilter": (light.InstanceEventFilter, {"illuminance_level": 1}),
+            "general.EventScheme": (general.EventScheme, {"instance": 0, "device": 1, "device_instance": 2, "device_group": 3, "instance_group": 4}),
+        }
+        for ename, (cls, table) in tables.items():
+            lib = {m.name: int(m.value) for m in cls}
+            for n in sorted(set(lib) | set(table)):
+                res["evaluations"] += 1
+                if lib.get(n) != table.get(n):
+                    add_violation(res, f"C13:enum-number:{ename}", f"{ename}.{n} = {lib.get(n)}, the standard says {table.get(n)}", {"t": "enums", "enum": ename, "name": n})
+            if hasattr(cls, "dali_width") and cls.dali_width() != 8:
+                add_violation(res, f"C13:enum-width:{ename}", f"{ename}.dali_width() = {cls.dali_width()}", {"t": "enums", "enum": ename, "name": "width"})
+            res["distinct"].add(("enum", ename))
+        sample(res, {"enums": list(tables)})
         return res
     if k == "input":
         _, r, tier = shard
@@ -559,6 +582,8 @@ def replay(case):
     res = new_result()
     t = case["t"]
     nf = len(case.get("injected", []))
+    if t == "enums":
+        return run_shard(("enums",))["violations"]
     if t == "addr_sweep":
         vs = []
         for part in range(4):
